@@ -99,12 +99,24 @@ FirstDev(out, exp) ==
 (***************************************************************************)
 KFID == "C04-file-delta-tracker-ahead"
 KFREE == "C04-ree-validity-buffer-under-v4"
+(* every deviation sits at a batch that holds a union below a sliced list (batches are decoded  *)
+(* independently); an error stops the read exactly at such a batch                              *)
+UnionShape(out, exp, err) ==
+  /\ cfg.ulist /\ Len(out) <= Len(exp) /\ Len(exp) <= Len(gin)
+  /\ \A j \in DOMAIN out : ~SameBatch(out[j], exp[j]) => gin[j].uoff
+  /\ IF err = "" THEN Len(out) = Len(exp) ELSE (Len(out) < Len(exp) /\ gin[Len(out) + 1].uoff)
+(* the push decoder panicked on a dense union: what it returned before is judged as a read of   *)
+(* that many batches                                                                            *)
+PanicCut(ev, out, exp) == ev.via = "StreamDecoder" /\ ev.err = "panic" /\ cfg.dunion /\ Len(out) < Len(exp)
+Prefix(exp, n) == SubSeq(exp, 1, n)
+
 KFRead(ev, out, exp) ==
   LET j == FirstDev(out, exp) IN
   CASE cfg.ver = 4 /\ cfg.ree /\ (ev.proj # <<>> \/ (ev.err \notin {"", "panic"} /\ j > 0 /\ Len(out) = j - 1)) -> KFREE
     [] cfg.ree /\ j \in DOMAIN gin /\ gin[j].ree0 /\ ev.err \notin {"", "panic"} /\ Len(out) = j - 1 -> "C04-ree-empty-slice-unreadable"
-    [] cfg.ulist /\ j \in DOMAIN gin /\ gin[j].uoff /\ ev.err # "panic" -> "C04-union-below-sliced-list"
-    [] ev.via = "StreamDecoder" /\ ev.err = "panic" /\ cfg.dunion /\ j > 0 /\ Len(out) = j - 1 -> "C04-stream-decoder-dense-union-unaligned"
+    [] ev.err # "panic" /\ UnionShape(out, exp, ev.err) -> "C04-union-below-sliced-list"
+    [] PanicCut(ev, out, exp) /\ FirstDev(out, Prefix(exp, Len(out))) = 0 -> "C04-stream-decoder-dense-union-unaligned"
+    [] PanicCut(ev, out, exp) /\ UnionShape(out, Prefix(exp, Len(out)), "") -> "C04-union-below-sliced-list"   \* (both)
     [] cfg.w = "file" /\ handling = "delta" /\ FirstUnclean > 0 /\ j >= FirstUnclean -> KFID
     [] OTHER -> ""
 KFFlight(ev) ==
